@@ -48,6 +48,22 @@ PROPS["C13"] = {
     "design_ref": "DESIGN.md 7 (C13), 6.4",
 }
 
+PROPS["C19"] = {
+    "engines": {"val": {"quick": 400, "thorough": 4000}},
+    "rule": "value engine: pools of host-constructed heap values (ints around 0, +-2^53, +-2^63, the zero-hash integer; reals incl. +-0, +-inf, NaN, subnormals, 2^53, 2^63; strings of equal/different length incl. non-ASCII; "
+            "nested tables incl. the same entries in another insertion order and equal-content distinct objects; function, native and closure values) -> ==, hash, partial_cmp, <, <=, as_bool, + - * / on all sampled pairs and the laws "
+            "(reflexive on the domain, symmetric, transitive, eq => same hash, asymmetric, eq => neither less nor greater) asserted on the implementation; non-trivial = case has >= 3 ops",
+    "trusted_base": ["IEEE-754 doubles enter the theorems only through the explicit laws LawfulF64 (order/equality facts, eq_bits, monotone conversions); the driver's Lean Float instance is compared with Rust f64 on every run",
+                     "the unfolding of an acyclic heap value into a tree (OVal) is the deep conversion the harness performs (read_back) and the Lean model `own`; cyclic values are outside the property (known finding K2 under C04)"],
+    "assumptions": ["function values never equal themselves: they are outside the equivalence claim (the property lists nil, numbers, strings, tables)",
+                    "'by numeric value' for int/real pairs = the documented coercion i as f64; beyond 2^53 two different numbers can be unordered/equal, never inverted (ofInt monotone)"],
+    "partial": "",
+    "technique": "Lean 4 proofs by mutual structural induction over deep values (equivalence, hash coherence, order/equality coherence, numeric-order characterisation), parametric in lawful IEEE-754 ops + differential correspondence and law checks on the real crate",
+    "level_text": "Proved in Lean for all deep values (trees of any size and nesting) and every floating-point implementation satisfying the explicit laws LawfulF64: == is symmetric and transitive on all values and reflexive on the NaN-free, function-free domain (veq_equivalence); equal values without a signed zero hash equally (veq_hash) and are then structurally equal (veq_iff_eq, used by C07 as key identity); the order never contradicts equality (veq_not_lt), is irreflexive and asymmetric on all values (vlt_irrefl, vlt_asymm); integers, reals and their mixtures are ordered exactly by the coerced numeric images, nil as 0, strings/tables as their length, two strings/tables by length (vcmp_* characterisations). A concrete instance of the float laws is proved (toyF64_lawful) so nothing is vacuous. The model functions are tied to value.rs / cao_lang_object.rs by the val engine on real heap values.",
+    "level_note": "Trusted: Lean kernel; IEEE-754 satisfies LawfulF64 (not derived); model vs Rust Value impls as far as the sampled differential run shows; termination on acyclic heap graphs is by structural recursion on the unfolded tree (native stack depth not modelled).",
+    "design_ref": "DESIGN.md 7 (C19), 6.2",
+}
+
 # properties not claimed yet (kept current; moved into PROPS as their checks land)
 NOT_YET = {
     "C01": "check under construction in this session (see DESIGN.md section 9 for the order of work); not yet claimed",
